@@ -105,6 +105,31 @@ func c16strings(rng *rand.Rand, L int) (out [][]byte, classes []string) {
 			}
 		}
 	}
+	if L > 32 {
+		// a canonical 32-byte value followed (LE) / preceded (BE) by zeros and ONE non-zero byte at a chosen distance:
+		// the byte next to the value is zero, a farther one is not (and the nearest one alone, for contrast)
+		low := randBig(rng, r).Bytes()
+		for k := 0; k < 3; k++ {
+			j := 32 + rng.Intn(L-32) // position of the non-zero byte in little-endian order
+			if k == 0 {
+				j = L - 1
+			}
+			if k == 1 {
+				j = 32
+			}
+			le := make([]byte, L)
+			for i := range low {
+				le[i] = low[len(low)-1-i]
+			}
+			le[j] = byte(1 + rng.Intn(255))
+			add(le, "le:canonical-low-part+one-high-byte")
+			be := make([]byte, L)
+			for i := range le {
+				be[L-1-i] = le[i]
+			}
+			add(be, "be:canonical-low-part+one-high-byte")
+		}
+	}
 	ff := bytes.Repeat([]byte{0xff}, L)
 	add(ff, "allff")
 	for k := 0; k < 6; k++ {
